@@ -335,6 +335,13 @@ def main(tier, seed):
     insl = [(t - 1, True) for t in L.steps]
     tasks = [("offs", (bindir, "TAI", offs_ts + insl)), ("offs", (bindir, "GPS", offs_ts + [315964799, 315964800, 315964801] + insl))]
     tasks += [("inv", (bindir, "TAI", offs_ts)), ("inv", (bindir, "GPS", [t for t in offs_ts if t >= 315964800]))]
+    # the same instants in descending and in random order within one process (a lookup must not depend on the one before)
+    shuf = list(offs_ts + insl)
+    rng.shuffle(shuf)
+    for zone in ("TAI", "GPS"):
+        tasks.append(("offs", (bindir, zone, list(reversed(offs_ts + insl)))))
+        tasks.append(("offs", (bindir, zone, shuf)))
+        tasks.append(("inv", (bindir, zone, list(reversed([t for t in offs_ts if t >= 315964800])))))
     rnd = [rng.randrange(L.ts[0], L.ts[-1] + 86400 * 3000) for _ in range(200 if quick else 5000)]
     for ch in range(0, len(rnd), 100):
         tasks.append(("offs", (bindir, "TAI", sorted(rnd[ch:ch + 100]))))
@@ -379,7 +386,7 @@ def main(tier, seed):
         tasks.append(("moadd", (bindir, year)))
     for sh in core.pmap(_dispatch, tasks):
         ctx.merge(sh)
-    ctx.rule = ("events: (0) dconv --from-zone TAI|GPS for stamps -1..+38 s around every table entry (the inverse mapping); (1) dconv --zone TAI|GPS at every table entry -2..+2 s and at every inserted second, interval midpoints, year starts to 4093, "
+    ctx.rule = ("events: (0) dconv --from-zone TAI|GPS for stamps -1..+38 s around every table entry (the inverse mapping); (1) dconv --zone TAI|GPS (instants in ascending, descending and random order within one process) at every table entry -2..+2 s and at every inserted second, interval midpoints, year starts to 4093, "
                 "2^31 and 2^32 +-1, random: the applied offset must be the table value (TAI-UTC of the last entry <= t; "
                 "GPS = TAI-19 from 1980-01-06); (2) ddiff A B -f '%%rS|%%S' on ordered pairs of boundary instants: real "
                 "seconds = UTC difference + leap seconds in (A,B], antisymmetric, also for operands more than 2^31 and 2^32 s apart, with %%rS|%%S|%%rS in one format, and with either operand an inserted second 23:59:60; (3) dadd DT +-Nrs for instants -5..+5 s "
